@@ -148,6 +148,7 @@ void prop(Src& s, Ctx& ctx) {
         return;
     }
     PacketView vq = view_packet(*q);
+    ctx.result(to_text(vp)); ctx.result(to_text(vq)); ctx.result(hash_bytes(y.data(), y.size()));
     normalise(vp);
     normalise(vq);
     if (absorb_ethernet_padding(vp, vq)) ctx.label("ethernet-padding-absorbed");
